@@ -165,7 +165,14 @@ type Layout struct {
 	// Plain layouts carry `"MARKER"` as file content (no probe builtins): for
 	// runs of the real elps command line, which has no host builtins.
 	Plain bool
-	nmark int
+	// Near layouts (near.go): the root's path components have near-equal
+	// twins outside the root (Twins), and two entries inside the root have a
+	// near-equal twin each (InsideTwins, sandbox-relative paths of the files).
+	// The location list of a near layout also holds the anchors of every file.
+	Near        bool
+	Twins       []NearTwin
+	InsideTwins []string
+	nmark       int
 	// the label pool of the string-sourced contexts (built on first use)
 	strClasses []string
 	strPool    map[string][]string
@@ -179,6 +186,14 @@ const Sentinel = "c20-reentry-nx.lisp"
 func (l *Layout) marker(hint string) string {
 	l.nmark++
 	h := strings.NewReplacer("/", "_", ".", "_").Replace(hint)
+	// (markers are lisp symbols: the names of the near layouts hold blanks,
+	// non-ASCII letters and invisible characters)
+	h = strings.Map(func(r rune) rune {
+		if r == '_' || r == '-' || '0' <= r && r <= '9' || 'a' <= r && r <= 'z' || 'A' <= r && r <= 'Z' {
+			return r
+		}
+		return '_'
+	}, h)
 	return fmt.Sprintf("m%03d_%s", l.nmark, h)
 }
 
@@ -649,6 +664,9 @@ var fixedVariants = [NFixed]fixedParams{
 // hand-written catalogue under different root names/depths and working
 // directories; larger variants are generated from r.
 func Build(base string, variant int, r *fw.RNG) *Layout {
+	if variant >= NearBase {
+		return buildNear(base, variant-NearBase, r)
+	}
 	if variant < NFixed {
 		return buildFixed(base, variant, false)
 	}
@@ -1062,6 +1080,9 @@ func Locations(l *Layout, depth int, r *fw.RNG, nrand int) []string {
 	}
 	for _, p := range []string{"/etc/hostname", "/etc/passwd", "/", "", ".", "..", "/..", "//", t.BasePath, t.BasePath + "/", Sentinel} {
 		set[p] = true
+	}
+	if l.Near {
+		l.anchors(set)
 	}
 	out := make([]string, 0, len(set))
 	for p := range set {
